@@ -25,6 +25,9 @@ const FUNCS: &[&str] = &[
     "(x => (t = x * 2) + t)", "((x, i) => [u = x + i, u][1])", "(x => {k: (w = x)}.k == w)",
     // flexible-arity built-ins as callbacks (the index is passed to whatever accepts two arguments)
     "round", "min", "max", "((a, b?) => b)",
+    // flexible-arity predicates whose verdict depends on the index they are handed (seeded C13-r4m1:
+    // `where` passing the index only to callbacks that cannot be called with one argument)
+    "((x, i?) => i == 1)", "((x, ...r) => len(r) == 1)", "((x, i?) => (i ?? 5) < 2)", "((x, i?, j?) => i != null && j == null)",
 ];
 /// the functions from this index on are tried against every list in every tier
 const ALWAYS: usize = 31;
